@@ -156,6 +156,7 @@ OWN_BASE = {
     "listop": 3.0,
     "listop_pure": 0.7,
     "setattr": 1.5,
+    "persist": 0.5,
 }
 
 
@@ -279,6 +280,8 @@ class OwnProfile(Profile):
 
 @profile
 class C03(OwnProfile):
+    runs_quick = 8000
+    runs_thorough = 240000
     prop = "C03"
     rule = (
         "one evaluation = one seeded ownership history (30-100 public mutations over up to 3 IRs, "
@@ -307,6 +310,8 @@ class C03(OwnProfile):
 
 @profile
 class C04(OwnProfile):
+    runs_quick = 7000
+    runs_thorough = 200000
     prop = "C04"
     base = dict(OWN_BASE, se=1.0, cfg=0.5)
     rule = (
@@ -328,6 +333,8 @@ class C04(OwnProfile):
 
 @profile
 class C16(OwnProfile):
+    runs_quick = 8000
+    runs_thorough = 240000
     prop = "C16"
     base = dict(OWN_BASE, setop=6.0, setop_pure=4.0, listop=5.0, listop_pure=2.0, setparent=1.5, se=4.0, se_pure=2.0)
     rule = (
@@ -391,6 +398,7 @@ INDEX_BASE = {
     "attr_index": 6.0,
     "setattr": 0.5,
     "se": 2.0,
+    "persist": 0.6,
 }
 INDEX_ATTRS = ("offset", "size", "address")
 
@@ -465,6 +473,8 @@ class IndexProfile(OwnProfile):
 
 @profile
 class C05(IndexProfile):
+    runs_quick = 16000
+    runs_thorough = 480000
     prop = "C05"
     lookup_props = ("C05",)
     rule = (
@@ -478,6 +488,8 @@ class C05(IndexProfile):
 
 @profile
 class C06(IndexProfile):
+    runs_quick = 16000
+    runs_thorough = 480000
     prop = "C06"
     lookup_props = ("C06",)
     base = dict(INDEX_BASE, attr_index=7.0, se=0.3)
@@ -496,6 +508,8 @@ class C06(IndexProfile):
 
 @profile
 class C13(IndexProfile):
+    runs_quick = 16000
+    runs_thorough = 480000
     prop = "C13"
     lookup_props = ("C13",)
     base = dict(INDEX_BASE, se=7.0, attr_index=3.0)
@@ -521,9 +535,11 @@ from .ops_misc import inv_c10, inv_c11, inv_c19  # noqa: E402
 
 @profile
 class C10(OwnProfile):
+    runs_quick = 12000
+    runs_thorough = 360000
     prop = "C10"
     name = "sym"
-    base = {"new": 4.0, "setparent": 4.0, "setop": 3.0, "attr_sym": 7.0, "listop": 0.7, "setattr": 0.5}
+    base = {"new": 4.0, "setparent": 4.0, "setop": 3.0, "attr_sym": 7.0, "listop": 0.7, "setattr": 0.5, "persist": 0.5}
     keep = ("new", "attr_sym")
     rule = (
         "one evaluation = one seeded history of symbol add/remove/move, renames (incl. to '' and to shared names), payload "
@@ -554,9 +570,11 @@ class C10(OwnProfile):
 
 @profile
 class C11(OwnProfile):
+    runs_quick = 6000
+    runs_thorough = 180000
     prop = "C11"
     name = "cfg"
-    base = {"new": 2.5, "setparent": 1.5, "cfg": 8.0, "cfg_pure": 2.0, "setop": 0.7, "listop": 0.4}
+    base = {"new": 2.5, "setparent": 1.5, "cfg": 8.0, "cfg_pure": 2.0, "setop": 0.7, "listop": 0.4, "persist": 0.5}
     keep = ("new", "cfg")
     rule = (
         "one evaluation = one seeded history of set operations on ir.cfg (add/discard/remove/pop/clear/update and in-place "
@@ -587,6 +605,8 @@ CfgMUT = ("add", "discard", "remove", "pop", "clear", "update", "ior", "isub", "
 
 @profile
 class C19(OwnProfile):
+    runs_quick = 16000
+    runs_thorough = 480000
     prop = "C19"
     name = "bytes"
     base = {"new": 3.0, "bytes": 7.0, "attr_index": 6.0, "setparent": 1.5, "setop": 0.7, "persist": 1.0}
@@ -689,6 +709,8 @@ class PersistProfile(OwnProfile):
     def gen(self, w):
         if w.step < w.cfg.get("boot", 0) and not w.queue:
             r = w.rs.ops
+            if not w.m.by_kind("ir"):
+                return {"op": "new", "kind": "ir", "label": w.fresh("ir"), "uuid": r.getrandbits(128), "attrs": {}}
             for _ in range(4):
                 op = gen_own.gen_new(w, r)
                 if op is not None and self._ready(w, op):
@@ -720,6 +742,8 @@ class PersistProfile(OwnProfile):
 
 @profile
 class C01(PersistProfile):
+    runs_quick = 7000
+    runs_thorough = 200000
     prop = "C01"
     rule = (
         "one evaluation = one seeded edit history with save / load (twin IR) / crash-restart (drop every object, reload the "
@@ -734,6 +758,8 @@ class C01(PersistProfile):
 
 @profile
 class C02(PersistProfile):
+    runs_quick = 7000
+    runs_thorough = 200000
     prop = "C02"
     base = dict(PERSIST_BASE, peer=2.5)
     keep = ("new", "persist", "peer")
@@ -753,6 +779,8 @@ class C02(PersistProfile):
 
 @profile
 class C09(PersistProfile):
+    runs_quick = 7000
+    runs_thorough = 200000
     prop = "C09"
     base = dict(PERSIST_BASE, peer=1.5, aux=3.0, cfg=3.0, se=3.0)
     rule = (
@@ -790,6 +818,8 @@ class AuxProfile(PersistProfile):
 
 @profile
 class C14(AuxProfile):
+    runs_quick = 5000
+    runs_thorough = 150000
     prop = "C14"
     rule = (
         "one evaluation = one seeded history over AuxData tables of known, unknown and partially unknown type names "
@@ -804,6 +834,8 @@ class C14(AuxProfile):
 
 @profile
 class C07(AuxProfile):
+    runs_quick = 5000
+    runs_thorough = 150000
     prop = "C07"
     base = dict(AUX_BASE, aux=12.0, setparent=2.5, setop=1.0)
     rule = (
@@ -822,6 +854,8 @@ class C07(AuxProfile):
 
 @profile
 class C08(AuxProfile):
+    runs_quick = 5000
+    runs_thorough = 150000
     prop = "C08"
     base = dict(AUX_BASE, peer=4.0)
     keep = ("new", "aux", "persist", "peer")
